@@ -75,6 +75,15 @@ NOTES = {
  'C16-h2': 'missed at first (the harness\' signer wrapper swallowed attribute writes); signer configuration read back after every issuing call; caught since',
  'C17-h2': 'missed at first (the registerer was always passed explicitly); default registerer path + a bystander application whose face must stay silent; caught since',
  'C18-h1': 'the check stopped with a machinery failure at first (a fresh instance that does not start in Init); now a violation, and every stage C process runs a sibling instance; caught since',
+ 'C11-d2m11': 'missed at first ($eq_type only with one-octet component types); Lvs!TypeOf knows two types with a three-octet TLV-TYPE (300, 301), used as $eq_type arguments and in the name alphabet; caught since',
+ 'C04-c1p02': 'a change of the legacy auto-registration list; caught by C17 (AppLife replay, check-C17.txt); its demonstration also fails on the unchanged tree since fix 33f53e0 changed the behaviour it pinned',
+ 'C19-b1': 'missed at first (objects of at most 12 segments); stage C fetches objects of 257 / 300 (thorough: up to 1100) segments; caught since',
+ 'C04-b1': 'missed at first (at most 10 Interests per history); fibcheck.stage_c_long: histories of 100 Interests on one application, most validators failing or raising; caught since',
+ 'C04-b2': 'missed at first (replies of two sizes); every fifth reply has a size on a TLV length boundary or above 8.8 kB; caught since',
+ 'C10-b1': 'caught by the codec round trip of C10; the reply sizes 243..256 with a PIT token added to the Reply stimulus catch it in the pipeline too',
+ 'C05-b1': 'missed at first (a refused duplicate declaration came without a validator); every second AttachDup brings a validator of its own whose call is a violation; caught since',
+ 'C06-b2': 'missed at first (at most 6 packets per stream); bursts of 257 / 300 (thorough: up to 1000) complete packets in one read; caught since',
+ 'C10-b2': 'missed at first (the harness face copied what it was handed); the face now remembers the objects handed to send() and reports a buffer that changes afterwards; caught since',
 }
 # seeded changes that were NOT kept as property-breaking after review
 REJECTED = {
